@@ -262,7 +262,7 @@ class Check:
         self.n_replay = 0
         self.lines: list[str] = []
         self.scratch = BUILD / f"run-{os.getpid()}"
-        if REPLAYS.exists():
+        if REPLAYS.exists() and not replay:
             for f in REPLAYS.glob(f"{prop}-{seed}-*.json"):
                 try:
                     f.unlink()
